@@ -24,6 +24,7 @@ const (
 type panicState struct {
 	val       value
 	recovered bool
+	where     string
 }
 
 type coroutine struct {
@@ -307,7 +308,7 @@ func (m *Machine) rtPanic(msg string) {
 }
 
 func (m *Machine) raise(co *coroutine, v value) {
-	co.panicking = &panicState{val: v}
+	co.panicking = &panicState{val: v, where: m.where()}
 	m.unwind(co)
 }
 
@@ -319,7 +320,7 @@ func (m *Machine) unwind(co *coroutine) {
 		if fr == nil {
 			ps := co.panicking
 			co.status = coDone
-			m.uncaughtPanic(co, ps.val)
+			m.uncaughtPanic(co, ps)
 			return
 		}
 		if fr.nested && len(fr.defers) == 0 {
@@ -438,9 +439,10 @@ func (m *Machine) panicString(v value) string {
 	return m.vstr(v)
 }
 
-func (m *Machine) uncaughtPanic(co *coroutine, v value) {
+func (m *Machine) uncaughtPanic(co *coroutine, ps *panicState) {
+	v := ps.val
 	msg := m.panicString(v)
-	m.recordViolationWithModel("panic", "panic: "+msg, co.name)
+	m.recordViolationWithModel("panic", "panic: "+msg, ps.where)
 	panic(pathAbort{"done", "uncaught panic: " + msg})
 }
 
